@@ -469,3 +469,63 @@ Lemma wakefd_closes : wakefd_drop_closes = true. Proof. reflexivity. Qed.
 Lemma unregister_guarded : unregister_publish_guarded = true. Proof. reflexivity. Qed.
 Lemma table_len : ids_table_len_is_max = true. Proof. reflexivity. Qed.
 Lemma default_exfiltrator : signalonly_supports_all = true /\ signalonly_init_empty = true. Proof. split; reflexivity. Qed.
+
+(** ---- the statements of props/C14.v ---- *)
+Lemma checked_all : forall (o : os) (k : fdkind) (f : fn_id) (sig : Z) (st : state),
+  In f checked_eps -> k <> FdBad -> wf o st -> (f = FSignalsNew -> inst st = []) ->
+  let r := entry o k f sig st in
+  (is_forbidden sig = true -> r_out r = Panic PForbidden /\ refused o f sig st r) /\
+  (iterator_ep f = true -> c_int sig -> out_of_table sig = true -> r_out r = Panic PIndex /\ refused o f sig st r) /\
+  (f = FFlagCondDefault -> known sig = false ->
+     r_out r = Err (EPrecheck EINVAL) /\ r_state r = st /\ refused o f sig st r) /\
+  (is_forbidden sig = false -> (iterator_ep f = true -> out_of_table sig = false) ->
+   (f = FFlagCondDefault -> known sig = true) ->
+     (accepts o sig = false -> r_out r = Err EOs /\ refused o f sig st r) /\
+     (accepts o sig = true -> registered f sig st r /\
+        (iterator_ep f = false -> r_out r = OkId (next_id st) /\ r_kept r = all_params f))).
+Proof.
+  intros o k f sig st Hf Hk W Hnew r. subst r.
+  split; [|split; [|split]].
+  - intros HF. apply checked_forbidden; auto.
+  - intros Hit HC HO. apply checked_out_of_table; auto.
+  - intros -> HK. apply cond_default_unknown; auto.
+  - intros HF Hit Hcd. split; intros HA.
+    + apply checked_rejected; auto.
+    + split; [apply checked_accepted; auto|].
+      intros Hni. destruct (checked_ok_id o k f sig st Hf Hni Hk W HF Hcd HA) as [A [B _]]. split; auto.
+Qed.
+
+Lemma unchecked_all : forall (o : os) (k : fdkind) (f : fn_id) (sig : Z) (st : state),
+  In f unchecked_eps -> wf o st ->
+  let r := entry o k f sig st in
+  (accepts o sig = true -> r_out r = OkId (next_id st) /\ registered f sig st r) /\
+  (accepts o sig = false ->
+     r_out r = Err EOs /\ same_core st (r_state r) /\
+     fallback (r_state r) = (if os_query o sig then Some sig else fallback st) /\
+     fallback_inert (r_state r) /\ r_released r = [] /\ r_kept r = [] /\ r_leaked r = []).
+Proof.
+  intros o k f sig st Hf W r. subst r. split; intros HA.
+  - apply unchecked_accepted; auto.
+  - apply unchecked_rejected; auto.
+Qed.
+
+Lemma unchecked_kill_stop : forall (o : os) (k : fdkind) (f : fn_id) (sig : Z) (st : state),
+  In f unchecked_eps -> wf o st -> sig = SIGKILL \/ sig = SIGSTOP ->
+  os_query o sig = true -> os_set o sig = false ->
+  let r := entry o k f sig st in
+  is_forbidden sig = true /\ r_out r = Err EOs /\ fallback (r_state r) = Some sig /\
+  same_core st (r_state r) /\ fallback_inert (r_state r).
+Proof.
+  intros o k f sig st Hf W Hs HQ HS r.
+  assert (HA : accepts o sig = false) by (unfold accepts; now rewrite HQ, HS).
+  destruct (unchecked_rejected o k f sig st Hf W HA) as [A [B [C [D _]]]]. fold r in A, B, C, D.
+  rewrite HQ in C. repeat split; auto; try apply B.
+  apply forbidden_list. destruct Hs; auto.
+Qed.
+
+Lemma invariant_all :
+  (forall (o : os) (d : Z -> disp), (forall s, d s <> Lib) -> wf o (init_state d)) /\
+  (forall (o : os) (k : fdkind) (f : fn_id) (sig : Z) (st : state),
+     In f (checked_eps ++ unchecked_eps) -> wf o st -> (next_id st + 1 < 2 ^ 128)%N ->
+     (f = FSignalsNew -> inst st = []) -> wf o (r_state (entry o k f sig st))).
+Proof. split; [exact wf_init|exact wf_preserved]. Qed.
